@@ -1108,7 +1108,7 @@ func (c1 complexConst) binaryOp(op ast.OperatorType, c2 constant) (constant, err
 		ad, _ := n1.r.binaryOp(op, n2.i)
 		c := complexConst{}
 		c.r, _ = ac.binaryOp(ast.OperatorSubtraction, bd)
-		c.i, _ = bc.binaryOp(ast.OperatorSubtraction, ad)
+		c.i, _ = bc.binaryOp(ast.OperatorAddition, ad)
 		return c, nil
 	case ast.OperatorDivision:
 		if n2.zero() {
